@@ -55,6 +55,7 @@ func runC16(c *core.Ctx) {
 	c16CancelOwnership(c)
 	cancelBeforeReturnNotForReaders(c, "C16.R6")
 	readerCloseAlwaysCancels(c, "C16.R4")
+	memberCallsUseMemberContext(c, "C16.R7")
 	c16Both(c)
 }
 
